@@ -39,9 +39,33 @@ inductive St
   | pareto
   | moasha (kind : PrioKind) (m : Moasha)
 
+def jBracket (b : List MRung) : Json :=
+  jArr (b.map fun rg =>
+      jArr [jRat rg.milestone, jArr (rg.recorded.map fun (t, p) => jArr [jNat t, jArr (p.map jRat)])])
+
 def jMoasha (m : Moasha) : List (String × Json) :=
-  [("rungs", jArr (m.brackets.map fun b => jArr (b.map fun rg =>
-      jArr [jRat rg.milestone, jArr (rg.recorded.map fun (t, p) => jArr [jNat t, jArr (p.map jRat)])]))),
+  [("rungs", jArr (m.brackets.map jBracket)),
+   ("trial_info", jArr (m.trialInfo.map fun (t, b) => jArr [jNat t, jNat b])),
+   ("num_stopped", jNat m.numStopped)]
+
+/-- rungs are append-only: milestone, number of entries and the last entry per rung -/
+def jBracketDigest (b : List MRung) : Json :=
+  jArr (b.map fun rg =>
+      jArr [jRat rg.milestone, jNat rg.recorded.length,
+            match rg.recorded.getLast? with
+            | some (t, p) => jArr [jNat t, jArr (p.map jRat)]
+            | none => Json.null])
+
+def jMoashaLight (m : Moasha) : List (String × Json) :=
+  [("trial_info", jArr (m.trialInfo.map fun (t, b) => jArr [jNat t, jNat b])),
+   ("num_stopped", jNat m.numStopped)]
+
+/-- state after a report of trial `tid` (bracket looked up in the state BEFORE the call):
+the digest of the rungs of that trial's bracket -/
+def jMoashaOf (before m : Moasha) (tid : Nat) : List (String × Json) :=
+  [("bracket_rungs", match alookup tid before.trialInfo with
+      | some b => (match m.brackets[b]? with | some rs => jBracketDigest rs | none => Json.null)
+      | none => Json.null),
    ("trial_info", jArr (m.trialInfo.map fun (t, b) => jArr [jNat t, jNat b])),
    ("num_stopped", jNat m.numStopped)]
 
@@ -129,11 +153,11 @@ def stepSt (st : St) (j : Json) : Except String (St × Json) := do
     if op == "add" then
       match m.onAdd tid (← getNat j "bracket") with
       | .error e => throw (mErrStr e)
-      | .ok m' => return (.moasha pk m', jOut (jObj (jMoasha m')))
+      | .ok m' => return (.moasha pk m', jOut (jObj (jMoashaLight m')))
     else if op == "remove" then
       match m.onRemove tid with
       | .error e => throw (mErrStr e)
-      | .ok m' => return (.moasha pk m', jOut (jObj (jMoasha m')))
+      | .ok m' => return (.moasha pk m', jOut (jObj (jMoashaLight m')))
     else if op == "result" ∨ op == "complete" then
       let cur ← getNat j "iter"
       let raw ← getRatList j "metrics"
@@ -153,12 +177,12 @@ def stepSt (st : St) (j : Json) : Except String (St × Json) := do
           -- at `max_t` the priority is not consulted
           let contract := if m.maxT ≤ cur then tape.isEmpty else contract
           return (.moasha pk m', jOut (jObj ([("decision", Json.str d.toString), ("free", Json.bool fr),
-                                              ("contract", Json.bool contract)] ++ jMoasha m')))
+                                              ("contract", Json.bool contract)] ++ jMoashaOf m m' tid)))
       else
         match m.onComplete prio tid cur raw hint with
         | .error e => throw (mErrStr e)
         | .ok (m', fr) =>
-          return (.moasha pk m', jOut (jObj ([("free", Json.bool fr), ("contract", Json.bool contract)] ++ jMoasha m')))
+          return (.moasha pk m', jOut (jObj ([("free", Json.bool fr), ("contract", Json.bool contract)] ++ jMoashaOf m m' tid)))
     else throw s!"bad-op {op}"
 
 def main : IO Unit := (Machine.mk initSt stepSt).main
